@@ -460,7 +460,18 @@ func SortedEntries[M ~map[K]V, K comparable, V any](m M) []Entry[K, V] {
 }
 
 func lessAny(a, b reflect.Value) bool {
+	if !a.IsValid() || !b.IsValid() {
+		return !a.IsValid() && b.IsValid()
+	}
+	if a.Type() != b.Type() {
+		return a.Type().String() < b.Type().String()
+	}
 	switch a.Kind() {
+	case reflect.Ptr:
+		if a.IsNil() || b.IsNil() {
+			return a.IsNil() && !b.IsNil()
+		}
+		return lessAny(a.Elem(), b.Elem())
 	case reflect.Int, reflect.Int8, reflect.Int16, reflect.Int32, reflect.Int64:
 		return a.Int() < b.Int()
 	case reflect.Uint, reflect.Uint8, reflect.Uint16, reflect.Uint32, reflect.Uint64, reflect.Uintptr:
